@@ -32,3 +32,26 @@ theorem absV_eq_abs (a : K) : absV a = |a| := by
 
 end
 end Umap
+
+namespace Umap
+
+theorem sumL_eq_sum {M : Type} [AddCommMonoid M] (xs : List M) : sumL xs = xs.sum := by
+  unfold sumL
+  rw [← List.sum_eq_foldl]
+
+@[simp] theorem sumL_nil {M : Type} [AddCommMonoid M] : sumL ([] : List M) = 0 := by
+  simp [sumL]
+
+@[simp] theorem sumL_cons {M : Type} [AddCommMonoid M] (x : M) (xs : List M) :
+    sumL (x :: xs) = x + sumL xs := by
+  simp [sumL_eq_sum]
+
+/-- an invariant preserved by every step holds after any number of iterations of a fold that
+    ignores its list argument. -/
+theorem foldl_inv {σ β : Type} (P : σ → Prop) (f : σ → β → σ) (h : ∀ s b, P s → P (f s b))
+    (l : List β) (s : σ) (hs : P s) : P (l.foldl f s) := by
+  induction l generalizing s with
+  | nil => simpa
+  | cons b l ih => exact ih _ (h s b hs)
+
+end Umap
